@@ -261,5 +261,7 @@ def run(ctx):
     shards = 16
     tasks = [{"seed": ctx.seed, "shard": i, "count": 13 if quick else 800, "reject": 3} for i in range(shards)]
     ctx.map("checks.c17", "load_task", tasks, timeout=3000)
+    ctx.map("checks.c17", "load_task", [dict(t, shard=100 + t["shard"], count=max(4, t["count"] // 4)) for t in tasks[:4]], timeout=3000,
+            python_flags=("-O",))  # assertions off
     if ctx.counters.get("permutations_compared", 0) < 200:
         ctx.inconc("too few permutations compared")
